@@ -9,6 +9,7 @@ CONSTANTS
   Meds = {FALSE}
   AllowClear = FALSE
   DeltaOpts = {TRUE}
+  PayKinds = {"sim"}
   AsCoded = TRUE
   Withhold = FALSE
 VIEW View
